@@ -52,6 +52,9 @@ def c19_flow(chk, cases, proof, max_report=3):
                                 "log": out[-3000:]}, no_input=True)
         return
     idx = [i for i, c in enumerate(cases) if c.get("coq")]
+    # interleave the cases over the shards (cases of one graph are contiguous and equally expensive)
+    nsh = len(idx) // 120 + 1
+    idx.sort(key=lambda i: (i % nsh, i))
     vals = gv.coq_eval(PROP + "_cert", REQ_RUN, [cases[i]["coq"] for i in idx], shard=120)
     disagree, mism, fails = [], [], []
     for i, v in zip(idx, vals):
@@ -124,7 +127,8 @@ def _run(tier, seed, extra=None):
     chk = gv.Check(PROP, tier, seed, level="proof")
     _merge_fragment(chk)
     proof = gv.proof_status(PROP, REQ_PROPS)
-    ngraphs = 40 if tier == "quick" else 300
+    # quick: 40 generated graphs on the pinned tree, up to 160 when /repo (an anchored file) has moved; thorough: 300
+    ngraphs = gv.scaled(PROP, tier, 40, 160, chk) if tier == "quick" else 300
     ok, out, binp = gv.cargo_build("c19")
     if not ok:
         chk.violation("build", {"what": "the harness no longer builds against /repo's working tree", "log": out[-3000:],
